@@ -34,3 +34,13 @@ fn bits_pow2() {
         println!("k={} rev-ordered {}", k, q(&db, "SELECT b, a, count(1) FROM t ORDER BY b, a"));
     }
 }
+
+#[test]
+fn widest_field() {
+    let db = mem();
+    let big = 1i64 << 62;
+    block_on(db.ingest_efficient(eb("t", vec![("a", ColumnData::I64(vec![0, big, 0, big + 5, 0])), ("b", ColumnData::I64(vec![0, 0, 0, 0, 0]))])));
+    db.force_flush();
+    println!("W {}", q(&db, "SELECT a, b, count(1) FROM t"));
+    println!("W2 {}", q(&db, "SELECT b, a, count(1) FROM t"));
+}
